@@ -18,7 +18,7 @@ import tlc
 import numpy as np
 
 
-def setup_types():
+def setup_types(hook=True):
   from flax import nnx
 
   class A(nnx.Module):
@@ -26,6 +26,12 @@ def setup_types():
 
   class B(nnx.Module):
     pass
+
+  if not hook:
+    class Q(nnx.Variable):      # (C04 sums Variable values inside traced functions: no hook there)
+      pass
+    Q.__name__ = 'Qplain'
+    return nnx, {'A': A, 'B': B}, {'P': nnx.Param, 'Q': Q}
 
   class Q(nnx.Variable):
     # a creation hook that is not idempotent: it must run when the user creates the Variable and never again
